@@ -8,6 +8,7 @@ levels and every well-formed family of index sets / tensor-product prolongations
 -/
 import Pyiga.Proofs.Boehm
 import Pyiga.Proofs.Transfer
+import Pyiga.Proofs.ProlongateTo
 import Mathlib.LinearAlgebra.Lagrange
 
 namespace Pyiga.Props.C05
@@ -128,13 +129,29 @@ def thb_virtual_step_full : Prop :=
     Mat.Eqv ((H.representFine (lv + 1) true none false).mul ((H.virtualProlongators true).getD lv (Mat.zero 0 0)))
             ((H.Tl lv).mul (H.representFine lv true none false))
 
-/-- full `prolongate_to` statement: `I_f · P = T_{Lc-1 → Lf-1} · I_c` on HB coefficients.
-It was **false for the loop bounds of the earlier source under finite disparity** (defect D13,
-repaired in /repo by 6ce171d): see `prolongate_to_finite_disparity_wrong` (`asCoded_D13 = true`). -/
-def prolongate_to_spec (C F : HSp Rat) (d : Option Nat) (asCoded_D13 : Bool) : Prop :=
-  Mat.Eqv ((F.representFine (F.numlevels - 1) false none false).mul (prolongateTo C F d asCoded_D13))
+/-- **`prolongate_to` preserves the function** (the loop as it is in /repo since 6ce171d, for every
+number of levels of both spaces, any disparity).  If `C` is a hierarchical space and `F` a refinement
+of it (`Nested`: same tensor-product data on the common levels, every active coarse function is
+active or deactivated in `F`, no deactivated functions on the finest levels, both well-formed —
+in particular child closure in `F`), then `I_F · prolongate_to = T_{Lc-1 → Lf-1} · I_C`: the HB
+coefficients returned for a coarse coefficient vector describe the identical function. -/
+theorem prolongate_to_spec (C F : HSp K) (nest : Nested C F) :
+    Mat.Eqv
+      ((F.representFine (F.numlevels - 1) false none false).mul (prolongateTo C F none false))
+      ((F.tprodN (F.numlevels - C.numlevels) (C.numlevels - 1)).mul
+        (C.representFine (C.numlevels - 1) false none false)) :=
+  Pyiga.Transfer.prolongate_to_spec C F nest
+
+/-- the same identity with the loop bounds `min(f_numlevels, · + disparity + 1)` of the source
+before 6ce171d (`asCoded_D13 = true`) — **false under finite disparity** (defect D13, repaired):
+see `prolongate_to_finite_disparity_wrong`. -/
+def prolongate_to_identity_asCoded_D13 (C F : HSp Rat) (d : Option Nat) : Prop :=
+  Mat.Eqv ((F.representFine (F.numlevels - 1) false none false).mul (prolongateTo C F d true))
           ((F.tprodN (F.numlevels - C.numlevels) (C.numlevels - 1)).mul
             (C.representFine (C.numlevels - 1) false none false))
+
+/-- non-vacuity of `Nested`: a one-level space refined to two levels with one deactivated function -/
+example : Nested exC exF := ex_nested
 
 end Hier
 
